@@ -352,4 +352,220 @@ theorem paren_pinned_drops_attribute_counterexample :
       (e.norm true).hard = e.hard := by
   refine ⟨by simp [PExpr.normPinned, PExpr.render], by simp [PExpr.normPinned, PExpr.hard], paren_norm_sound _ _⟩
 
+/-! ## §5 keywords, visibility, ABI (`src/utils.rs`) -/
+
+open RF.Gen.Keywords in
+/-- **What the source says is what Rust calls these keywords.**  `kwFns` is read out of `src/utils.rs` on every run
+(translate/c01_keywords.py); this is the table of the language: every variant maps to its own keyword followed by one
+blank (`format_constness_right`: preceded by one), the variant that stands for "absent" to the empty text. -/
+theorem keywords_exact :
+    kwFns = [
+      ⟨cs% "format_coro", cs% "ast::CoroutineKind",
+        [(cs% "Async", cs% "async "), (cs% "Gen", cs% "gen "), (cs% "AsyncGen", cs% "async gen ")]⟩,
+      ⟨cs% "format_constness", cs% "ast::Const", [(cs% "Yes", cs% "const "), (cs% "No", [])]⟩,
+      ⟨cs% "format_constness_right", cs% "ast::Const", [(cs% "Yes", cs% " const"), (cs% "No", [])]⟩,
+      ⟨cs% "format_defaultness", cs% "ast::Defaultness", [(cs% "Default", cs% "default "), (cs% "Final", [])]⟩,
+      ⟨cs% "format_safety", cs% "ast::Safety",
+        [(cs% "Unsafe", cs% "unsafe "), (cs% "Safe", cs% "safe "), (cs% "Default", [])]⟩,
+      ⟨cs% "format_auto", cs% "ast::IsAuto", [(cs% "Yes", cs% "auto "), (cs% "No", [])]⟩,
+      ⟨cs% "format_mutability", cs% "ast::Mutability", [(cs% "Mut", cs% "mut "), (cs% "Not", [])]⟩] := by
+  decide
+
+/-- the variant of each enum that stands for the absence of the keyword (`CoroutineKind` has none) -/
+def absentVariants : List (Str × Str) :=
+  [(cs% "ast::Const", cs% "No"), (cs% "ast::Defaultness", cs% "Final"), (cs% "ast::Safety", cs% "Default"),
+   (cs% "ast::IsAuto", cs% "No"), (cs% "ast::Mutability", cs% "Not")]
+
+open RF.Gen.Keywords in
+/-- no two variants of one enum print the same text, and only the "absent" variant prints nothing -/
+theorem keywords_injective_nonempty :
+    kwFns.all (fun f =>
+      (f.arms.map Prod.snd).Nodup ∧ (f.arms.map Prod.fst).Nodup ∧
+      f.arms.all (fun a => a.2.isEmpty == absentVariants.contains (f.enum, a.1))) = true := by
+  decide
+
+open RF.Gen.Keywords in
+/-- every keyword text is lower-case words separated by one blank, with exactly one blank at one end: two of them put
+side by side never run together and never leave two blanks -/
+theorem keywords_spacing :
+    kwFns.all (fun f => f.arms.all (fun a =>
+      a.2.all (fun c => ('a' ≤ c && c ≤ 'z') || c == ' ') &&
+      (a.2.isEmpty || ((a.2.head? == some ' ') != (a.2.getLast? == some ' '))))) = true := by
+  decide
+
+/-- **`format_extern` is the function its source arms spell.**  The five arms read out of `src/utils.rs`, run first-match,
+are the hand-written `formatExtern` for every qualifier, ABI text and value of `force_explicit_abi`. -/
+theorem extern_arms_modelled (ext : Ext) (explicitAbi : Bool) :
+    externFromArms RF.Gen.Keywords.externArms ext explicitAbi = some (formatExtern ext explicitAbi) := by
+  cases ext with
+  | none => cases explicitAbi <;> decide
+  | implicit => cases explicitAbi <;> decide
+  | explicit abi =>
+    cases explicitAbi with
+    | true => simp [externFromArms, RF.Gen.Keywords.externArms, formatExtern, List.find?]
+    | false =>
+      by_cases h : abi = cs% "C"
+      · subst h; decide
+      · have hb : (abi == cs% "C") = false := by simp [h]
+        simp [externFromArms, RF.Gen.Keywords.externArms, formatExtern, List.find?, hb]
+
+open RF.Gen.Keywords in
+/-- the constants of `format_visibility` as read out of the source are the ones `formatVisibility` uses -/
+theorem visibility_constants_modelled :
+    visPublic = cs% "pub " ∧ visInherited = [] ∧ visKeywords = [cs% "crate", cs% "self", cs% "super"] ∧
+      visSep = cs% "::" ∧ visInKeyword = [] ∧ visInOther = cs% "in " ∧ visFormat = cs% "pub({in_str}{path}) " := by
+  decide
+
+/-- **It fires exactly when**: `in` is dropped iff the whole path is one of `crate`, `self`, `super`; the segments are
+printed as written, joined by `::`. -/
+theorem format_visibility_exact (g : Bool) (segs : List Str) :
+    formatVisibility (.restricted g segs) =
+      cs% "pub(" ++ (if joinWith (cs% "::") segs = cs% "crate" ∨ joinWith (cs% "::") segs = cs% "self" ∨
+          joinWith (cs% "::") segs = cs% "super" then [] else cs% "in ") ++ joinWith (cs% "::") segs ++ cs% ") " := by
+  simp only [formatVisibility, isVisKeyword, Bool.or_eq_true, beq_iff_eq, or_assoc]
+
+example : formatVisibility (.restricted false [cs% "crate"]) = cs% "pub(crate) " := by decide
+example : formatVisibility (.restricted false [cs% "super", cs% "super"]) = cs% "pub(in super::super) " := by decide
+example : formatVisibility (.restricted false [cs% "crate", cs% "a"]) = cs% "pub(in crate::a) " := by decide
+
+/-- a quirk the model keeps: the leading `::` of `pub(in ::a)` is not printed (2015 edition, where `::a` and `a` name the
+same module in a visibility) -/
+theorem format_visibility_drops_root_counterexample :
+    formatVisibility (.restricted true [cs% "a"]) = cs% "pub(in a) " := by decide
+
+theorem readExtern_quote (abi : Str) (h : ∀ c ∈ abi, c ≠ '"' ∧ c ≠ '\\') :
+    readExtern (cs% "extern \"" ++ abi ++ cs% "\" ") = some (.explicit abi) := by
+  have hp : ∀ c ∈ abi, (c != '"' && c != '\\') = true := by
+    intro c hc; have := h c hc; simp [bne, this.1, this.2]
+  have htw : (abi ++ cs% "\" ").takeWhile (fun c => c != '"' && c != '\\') = abi :=
+    takeWhile_append_stop abi '"' [' '] hp (by decide)
+  have hdw : (abi ++ cs% "\" ").dropWhile (fun c => c != '"' && c != '\\') = cs% "\" " :=
+    dropWhile_append_stop abi '"' [' '] hp (by decide)
+  have hne : (cs% "extern \"" ++ abi ++ cs% "\" ") ≠ [] := by simp
+  have hne2 : (cs% "extern \"" ++ abi ++ cs% "\" ") ≠ cs% "extern " := by
+    intro hh
+    have := congrArg (fun l => l.drop 7) hh
+    simp at this
+  unfold readExtern
+  simp only [beq_iff_eq, hne, hne2, if_false]
+  simp only [List.cons_append, List.nil_append]
+  simp only [htw, hdw]
+  simp
+
+/-- **Sound (partial).**  The printed qualifier selects the ABI the source selected (`extern` alone selects `"C"`),
+whatever `force_explicit_abi` says — provided the ABI text needs no escape to stand between quotes. -/
+theorem format_extern_sound_partial (ext : Ext) (explicitAbi : Bool)
+    (h : ∀ abi, ext = .explicit abi → ∀ c ∈ abi, c ≠ '"' ∧ c ≠ '\\') :
+    (readExtern (formatExtern ext explicitAbi)).map Ext.den = some ext.den := by
+  cases ext with
+  | none => cases explicitAbi <;> decide
+  | implicit => cases explicitAbi <;> decide
+  | explicit abi =>
+    have ha := h abi rfl
+    unfold formatExtern
+    by_cases hc : (abi == cs% "C" && !explicitAbi) = true
+    · simp only [hc, if_true]
+      simp only [Bool.and_eq_true, beq_iff_eq] at hc
+      rw [hc.1]; decide
+    · have hc' : (abi == cs% "C" && !explicitAbi) = false := by simpa using hc
+      simp only [hc', Bool.false_eq_true, if_false]
+      rw [readExtern_quote abi ha]
+      simp [Ext.den]
+
+/-- **It changes exactly** the spelling of the default ABI: `extern` ↔ `extern "C"`; every other qualifier is printed
+as it was read -/
+theorem format_extern_exact (abi : Str) (explicitAbi : Bool) (h : abi ≠ cs% "C") :
+    formatExtern (.explicit abi) explicitAbi = cs% "extern \"" ++ abi ++ cs% "\" " := by
+  simp [formatExtern, h]
+
+example : formatExtern .implicit true = cs% "extern \"C\" " := by decide
+example : formatExtern (.explicit (cs% "C")) false = cs% "extern " := by decide
+example : formatExtern (.explicit (cs% "Rust")) false = cs% "extern \"Rust\" " := by decide
+
+/-- **An ABI text that needs an escape is printed raw**: `extern "a\"b"` (value `a"b`) comes out as `extern "a"b"`,
+which does not read back.  (No ABI of the language contains such a character; the parser accepts any string.) -/
+theorem format_extern_escape_counterexample :
+    formatExtern (.explicit (cs% "a\"b")) true = cs% "extern \"a\"b\" " ∧
+      readExtern (formatExtern (.explicit (cs% "a\"b")) true) = none := by decide
+
+/-! ## §7 leading pipes, arm commas, semicolons -/
+
+/-- **Exact**: a `| ` is printed in front of an arm iff the option says `Always`, or `Preserve` and the source had one -/
+theorem pipe_exact (opt : LeadingPipe) (has : Bool) :
+    pipeStr opt has = (if opt = .always ∨ (opt = .preserve ∧ has = true) then cs% "| " else []) := by
+  cases opt <;> cases has <;> decide
+
+/-- **Sound**: the alternatives an arm matches are the same with and without the leading `|` -/
+theorem pipe_sound (opt : LeadingPipe) (has : Bool) (alts : List Tok) (h : ∀ a ∈ alts, a ≠ cs% "|") :
+    readAlts (armPatToks opt has alts) = alts := by
+  have hfil : (alts.intersperse (cs% "|")).filter (· != cs% "|") = alts := by
+    induction alts with
+    | nil => simp
+    | cons a r ih =>
+      have ha : (a != cs% "|") = true := by simpa [bne] using h a (by simp)
+      cases r with
+      | nil => simp [ha]
+      | cons b r' =>
+        have := ih (fun x hx => h x (by simp [hx]))
+        simp only [List.intersperse_cons_cons, List.filter, ha]
+        simp at this ⊢
+        exact this
+  unfold armPatToks readAlts
+  by_cases hp : (pipeStr opt has == []) = true
+  · simp only [hp, if_true, List.nil_append]
+    cases hi : alts.intersperse (cs% "|") with
+    | nil => rw [hi] at hfil; simpa using hfil
+    | cons t r =>
+      have ht : t ≠ cs% "|" := by
+        have : t ∈ alts := by
+          cases alts with
+          | nil => simp at hi
+          | cons a r' => cases r' <;> simp at hi <;> simp [← hi.1]
+        exact h t this
+      simp only [beq_iff_eq, ht, if_false]
+      rw [← hi]; exact hfil
+  · simp only [hp]
+    simp [hfil]
+
+example : readAlts (armPatToks .always false [cs% "A", cs% "B"]) = [cs% "A", cs% "B"] := by decide
+example : armPatToks .always false [cs% "A", cs% "B"] = [cs% "|", cs% "A", cs% "|", cs% "B"] := by decide
+
+/-- **Sound / exact for the arm comma**: the `,` is left out only where it is optional — behind the last arm under
+`trailing_comma = Never`, or behind a block body (not an `unsafe` block) when `match_block_trailing_comma` is off. -/
+theorem arm_comma_exact (never mbtc : Bool) (body : BodyClass) (isLast : Bool) :
+    armComma never mbtc body isLast = false ↔
+      ((isLast = true ∧ never = true) ∨ (mbtc = false ∧ body = .block)) := by
+  cases never <;> cases mbtc <;> cases body <;> cases isLast <;> decide
+
+/-- `Stmt::is_last_expr` is never true of a statement that has its `;`: the `trailing_semicolon() || !is_last_expr` arm of
+`semicolon_for_stmt` always answers yes -/
+theorem semi_jump_kept (ts md isLast : Bool) : outSemi ts md isLast (.semi .jump) = true := by
+  cases ts <;> cases md <;> cases isLast <;> decide
+
+/-- **A `;` is added only** behind a `return` / `break` / `continue` that ends its block without one, under
+`trailing_semicolon`, outside macro definitions (the expression has type `!`: the block's value does not change). -/
+theorem semi_added_exact (ts md isLast : Bool) (k : StmtKind) :
+    (k.srcSemi = false ∧ outSemi ts md isLast k = true) ↔
+      (k = .expr .jump ∧ isLast = true ∧ ts = true ∧ md = false) := by
+  cases k with
+  | expr c => cases c <;> cases ts <;> cases md <;> cases isLast <;> decide
+  | semi c => cases c <;> cases ts <;> cases md <;> cases isLast <;> decide
+  | _ => cases ts <;> cases md <;> cases isLast <;> decide
+
+/-- **A `;` is dropped only** behind a `while` / `loop` / `for` statement -/
+theorem semi_dropped_exact (ts md isLast : Bool) (k : StmtKind) :
+    (k.srcSemi = true ∧ outSemi ts md isLast k = false) ↔ k = .semi .loop_ := by
+  cases k with
+  | expr c => cases c <;> cases ts <;> cases md <;> cases isLast <;> decide
+  | semi c => cases c <;> cases ts <;> cases md <;> cases isLast <;> decide
+  | _ => cases ts <;> cases md <;> cases isLast <;> decide
+
+/-- inside a macro definition no `;` is ever added -/
+theorem semi_macro_def (ts : Bool) (c : ExprClass) : semicolonForExpr ts true c = false := by
+  cases ts <;> cases c <;> decide
+
+example : outSemi true false true (.expr .jump) = true := by decide
+example : outSemi true false false (.expr .jump) = false := by decide
+example : outSemi false false true (.semi .jump) = true := by decide
+
 end RF.Props.OptRewrites
